@@ -14,7 +14,7 @@ def run(run):
     if not L.build(run):
         return
     quick = run.tier == "quick"
-    fams = [("corpus:corpus/C10/growth-reload-failure.jsonl", 0, 0), ("c10", 1500 if quick else 20000, run.seed), ("boot", 200 if quick else 2000, run.seed + 1),
+    fams = [("corpus:corpus/C10/growth-reload-failure.jsonl", 0, 0), ("corpus:corpus/C10/multi-failure-after-growth.jsonl", 0, 0), ("c10", 1500 if quick else 20000, run.seed), ("multifail", 40 if quick else 400, run.seed + 5), ("boot", 200 if quick else 2000, run.seed + 1),
             ("c11", 300 if quick else 3000, run.seed + 2)]
     results, cover, summary, scripts, traces = L.run_families(run, fams)
     cnt = L.classify(run, "C10", results, scripts, traces)
